@@ -527,7 +527,11 @@ func (e *Exec) visitInstr(fr *frame, instr ssa.Instruction) continuation {
 		x := fr.get(instr.X)
 		switch x := x.(type) {
 		case Slice:
-			i := e.indexConcrete(fr, fr.get(instr.Index), len(x.v))
+			if sp, ok := e.symElemPtr(fr, x.v, fr.get(instr.Index), isSignedT(instr.Index.Type()), x.ro); ok {
+				fr.set(instr, sp)
+				break
+			}
+			i := e.indexConcrete(fr, fr.get(instr.Index), len(x.v), isSignedT(instr.Index.Type()))
 			fr.set(instr, Ptr{p: &x.v[i], ro: x.ro})
 		case Ptr:
 			if x.p == nil {
@@ -537,7 +541,11 @@ func (e *Exec) visitInstr(fr *frame, instr ssa.Instruction) continuation {
 			if !ok {
 				e.unsupported(fr, "IndexAddr through pointer to %s", describe(*x.p))
 			}
-			i := e.indexConcrete(fr, fr.get(instr.Index), len(arr))
+			if sp, ok := e.symElemPtr(fr, arr, fr.get(instr.Index), isSignedT(instr.Index.Type()), x.ro); ok {
+				fr.set(instr, sp)
+				break
+			}
+			i := e.indexConcrete(fr, fr.get(instr.Index), len(arr), isSignedT(instr.Index.Type()))
 			fr.set(instr, Ptr{p: &arr[i], ro: x.ro})
 		default:
 			e.unsupported(fr, "IndexAddr on %s", describe(x))
@@ -547,9 +555,9 @@ func (e *Exec) visitInstr(fr *frame, instr ssa.Instruction) continuation {
 		x := fr.get(instr.X)
 		switch x := x.(type) {
 		case Array:
-			fr.set(instr, e.indexRead(fr, []Value(x), fr.get(instr.Index)))
+			fr.set(instr, e.indexRead(fr, []Value(x), fr.get(instr.Index), isSignedT(instr.Index.Type())))
 		case Str:
-			fr.set(instr, e.indexStr(fr, x, fr.get(instr.Index)))
+			fr.set(instr, e.indexStr(fr, x, fr.get(instr.Index), isSignedT(instr.Index.Type())))
 		default:
 			e.unsupported(fr, "Index on %s", describe(x))
 		}
@@ -610,8 +618,35 @@ func (e *Exec) nilDeref(fr *frame) {
 	e.goPanicf(fr, "runtime error: invalid memory address or nil pointer dereference")
 }
 
+// symElemPtr builds a symbolic element pointer when idx is symbolic and all cells are scalars.
+func (e *Exec) symElemPtr(fr *frame, cells []Value, idx Value, signed bool, ro bool) (Ptr, bool) {
+	t, ok := idx.(*Term)
+	if !ok || t.IsConst() {
+		return Ptr{}, false
+	}
+	n := len(cells)
+	if n == 0 || n > e.eng.conf.MaxIteTable {
+		return Ptr{}, false
+	}
+	for _, cv := range cells {
+		if _, ok := cv.(*Term); !ok {
+			return Ptr{}, false
+		}
+	}
+	c := e.ctx
+	t64 := c.Resize(t, 64, signed)
+	inRange := c.And(c.Cmp(OpSLe, c.Const(64, 0), t64), c.Cmp(OpSLt, t64, c.Const(64, uint64(n))))
+	if !e.branch(fr, inRange) {
+		e.goPanicf(fr, "runtime error: index out of range [symbolic] with length %d", n)
+	}
+	return Ptr{symArr: cells, symIdx: t64, ro: ro}, true
+}
+
 func (e *Exec) load(fr *frame, pv Value) Value {
 	p := e.ptr(fr, pv)
+	if p.symArr != nil {
+		return e.iteChain(p.symIdx, p.symArr)
+	}
 	if p.p == nil {
 		e.nilDeref(fr)
 	}
@@ -624,6 +659,17 @@ func (e *Exec) load(fr *frame, pv Value) Value {
 
 func (e *Exec) store(fr *frame, pv Value, v Value) {
 	p := e.ptr(fr, pv)
+	if p.symArr != nil {
+		if p.ro {
+			e.unsupported(fr, "write to shared package-initialisation state")
+		}
+		nv := v.(*Term)
+		for i := range p.symArr {
+			old := p.symArr[i].(*Term)
+			p.symArr[i] = e.ctx.Ite(e.ctx.Eq(p.symIdx, e.ctx.Const(64, uint64(i))), nv, old)
+		}
+		return
+	}
 	if p.p == nil {
 		e.nilDeref(fr)
 	}
